@@ -173,6 +173,20 @@ def callFunction (orc : Oracle) (m : PM) (f : Frame) (rest : List Frame) : PM :=
         else { m1 with frames := f1 :: rest }
       | .none => m.reject f1 rest
 
+/-- the context `p` after its section `s` was closed: it goes on at the section's line and under the section's
+file name (the section may end in another source than it began in: an included file that closes it, or one that
+ends inside it) -/
+def Cfg.afterSection (p s : Cfg) : Cfg :=
+  p.setInfo { p.info with line := s.info.line,
+                          filename := (match s.info.filename with | some n => some n | none => p.info.filename) }
+
+@[simp] theorem Cfg.afterSection_line (p s : Cfg) : (p.afterSection s).line = s.line := by
+  cases p; cases s; rfl
+@[simp] theorem Cfg.afterSection_opts (p s : Cfg) : (p.afterSection s).opts = p.opts := by
+  cases p; rfl
+@[simp] theorem Cfg.afterSection_flags (p s : Cfg) : (p.afterSection s).flags = p.flags := by
+  cases p; rfl
+
 def step_s0 (orc : Oracle) (m : PM) (f : Frame) (rest : List Frame) (tok : Tok) : PM :=
   let (m, f) := handleDeprecated m f
   (match tok with
@@ -183,7 +197,9 @@ def step_s0 (orc : Oracle) (m : PM) (f : Frame) (rest : List Frame) (tok : Tok) 
         if f.level == 0 then m.rejectWith f rest .unexpectedBrace
         else
           let p1 := writeBack p f
-          let p2 := { p1 with cfg := p1.cfg.setLine f.cfg.line }
+          -- the enclosing context goes on where the section ended: its line, and (fix F38) its file name too -
+          -- the section may have been closed in another source than it was opened in
+          let p2 := { p1 with cfg := p1.cfg.afterSection f.cfg }
           match runValid orc m p2 with
           | none => (vetoed orc m p2).reject p2 rest'
           | some m1 => { m1 with frames := { p2 with state := .s0 } :: rest' })
